@@ -135,6 +135,11 @@ Theorem rendezvous_sends_bounded_ok : rendezvous_sends_bounded = true.
 Proof. vm_compute. reflexivity. Qed.
 Print Assumptions rendezvous_sends_bounded_ok.
 
+(* ... and the requesters register their channel before the request is sent (Rendezvous.v's requester: QStart -> QRegd -> send) *)
+Theorem rendezvous_requesters_register_first_ok : requesters_register_first = true.
+Proof. vm_compute. reflexivity. Qed.
+Print Assumptions rendezvous_requesters_register_first_ok.
+
 Theorem lock_order_acyclic : lock_order_ok = true.
 Proof. vm_compute. reflexivity. Qed.
 Print Assumptions lock_order_acyclic.
@@ -344,6 +349,11 @@ Example atomic_nonvacuous :
   valid_linearization (step P) out_eqb (init P) (hist_of (tr c) 4) [1; 0; 2; 3]%nat = true /\
   valid_linearization (step P) out_eqb (init P) (hist_of (tr c) 4) [0; 1; 2; 3]%nat = false.
 Proof. vm_compute. repeat split. Qed.
+
+(* most field selections of the anchored files are resolved by the type checker, none differently from the syntactic rules
+   (the translator stops when they disagree) *)
+Example resolution_nonvacuous : match Gen_C13.resolution_stats with [typed; syntactic] => (typed >= 600)%nat /\ (syntactic <= 60)%nat | _ => False end.
+Proof. vm_compute. split; repeat constructor. Qed.
 
 Example table_nonvacuous :
   (List.length Gen_C13.table >= 100)%nat /\ (List.length shared_fields >= 12)%nat /\
